@@ -81,6 +81,10 @@ class Rule_AM07(BaseRule):
         # reflective of the others, that will be caught when that segment
         # is processed. We'll know if we're in a set based on whether there
         # is more than one selectable. i.e. Just take the first selectable.
+        if not query.selectables:
+            # Nothing we can count the columns of (e.g. a set expression
+            # made only of VALUES clauses). Flag as unresolved.
+            return 0, False
         return self.__resolve_selectable(query.selectables[0], query)
 
     def __resolve_selectable_wildcard(
